@@ -32,6 +32,8 @@ ENUM_BATCHES = [
     ["COC(C)=O>>OC(C)=O", "CCO>>CCO", "CC(=O)OC(C)=O.Nc1ccccc1>>CC(=O)Nc1ccccc1"],
     ["CCOC(=O)c1ccccc1>>OC(=O)c1ccccc1", "CC(=O)Nc1ccccc1>>Nc1ccccc1", "CC(=O)O.CCO>>CC(=O)OCC"],
     ["COc1ccccc1>>Oc1ccccc1", "CC(C)(C)OC(=O)NCc1ccccc1>>NCc1ccccc1"],
+    # rows solved before the MCS stage in FRONT of the MCS rows: positions in the MCS lists and row indices overlap
+    ["CCO>>CCO", "COC(C)=O>>OC(C)=O", "CC(=O)Nc1ccccc1>>Nc1ccccc1", "CCOC(=O)c1ccccc1>>OC(=O)c1ccccc1"],
 ]
 ENUM_KINDS = [
     ("mcs_job", {"kind": "timeout", "lines": 0, "q": 1.0}),
@@ -61,7 +63,7 @@ def gen_plan(base_seed, i, tier):
 def extra_plans(tier, base_seed):
     plans = []
     if tier == "quick":
-        sel = [(0, 0, 8), (0, 4, 4), (1, 5, 8)]
+        sel = [(0, 0, 8), (0, 4, 4), (1, 5, 8), (3, 3, 2), (3, 4, 2)]
     else:
         sel = [(b, k, 16) for b in range(len(ENUM_BATCHES)) for k in range(len(ENUM_KINDS))]
     for b, k, nch in sel:
